@@ -223,11 +223,33 @@ def _batch(run, prog, cls, method, original):
         ok = key_ok and v[0] == "op" and v[1] == "/" and v[2] == num
         if ok:
             den = v[3]
-            if den == ("fn", "len", (xd,)):
+
+            def obs_count(d):
+                """d is the number of explained observations: len(x_data), the 1-based enumeration index kept
+                from the last iteration (len(x_data) if there was none), or a counter incremented once per iteration"""
+                if d == ("fn", "len", (xd,)):
+                    return "len"
+                if d[0] == "eta" and d[1] == O.lid:
+                    cinit, cnext = O.carried.get(d[2], (None, None))
+                    if enum and const_value(start_ix) == 1 and cnext == ("tget", oe, 0) and cinit == ("fn", "len", (xd,)):
+                        return "index"
+                    if cinit is not None and const_value(cinit) == 0 and \
+                            cnext in (("op", "+", ("mu", O.lid, d[2]), ("const", 1)), ("op", "+", ("const", 1), ("mu", O.lid, d[2]))):
+                        return "counter"
+                return None
+            kind = obs_count(den)
+            if kind in ("len", "index"):
                 cnt_ok = True
-            elif den[0] == "eta" and den[1] == O.lid:
-                cinit, cnext = O.carried.get(den[2], (None, None))
-                cnt_ok = enum and const_value(start_ix) == 1 and cnext == ("tget", oe, 0) and cinit == ("fn", "len", (xd,))
+            elif kind == "counter":
+                cnt_ok = True           # no observation explained: 0 / 0 raises, nothing wrong is returned
+            elif den[0] == "gate":
+                # `count if count > 0 else len(x_data)`: the fallback only applies when nothing was explained
+                from .common import gate_on
+                for c in (x for x in ir.subterms(den[1]) if obs_count(x) == "counter"):
+                    sel = gate_on(den, ("cmp", ">", c, ("const", 0))) or gate_on(den, ("cmp", ">=", c, ("const", 1))) or \
+                        gate_on(den, ("cmp", "!=", c, ("const", 0)))
+                    if sel is not None and sel[0] == c and obs_count(sel[1]) == "len":
+                        cnt_ok = True
             why = "" if cnt_ok else f"divisor {ir.show_nl(den)} is not the number of explained observations"
         else:
             why = f"value {ir.show_nl(v)[:140]}"
@@ -251,8 +273,9 @@ def _batch_one(run, prog, cls):
     x, y = ("param", names[0]), ("param", names[1])
     ups = [ev for ev, _ in walk(s.events) if is_call_to(ev, sf, "update")]
     gd = [ev for ev, _ in walk(s.events) if is_call_to(ev, sf, "get_data")]
-    inl = [ev for ev, _ in walk(s.events, structural=True) if isinstance(ev, ir.Inlined) and
-           ev.qual in ("BatchSage.explain_many", "BatchSage.explain_many_original")]
+    # the two estimators, whichever class of the hierarchy (public or a private base) holds them
+    inl = [ev for ev, c in walk(s.events, structural=True) if isinstance(ev, ir.Inlined) and ev.cls is not None and
+           ev.fn.name in ("explain_many", "explain_many_original") and ev.cls in prog.mro(cls)]
     ok = len(ups) == 1 and _xy(ups[0]) == (x, y) and len(gd) == 1 and len(inl) == 2
     run.check(ok, "SCHEDULE", "batch.explain_one", f"{s.path}:{s.fn.lineno}", fq, "store-then-explain",
               "BatchSage.explain_one must store (x_i, y_i) once and explain the storage's data in the selected mode",
@@ -354,7 +377,7 @@ def _interval(run, prog, cls, bs):
               f"interval_length, and otherwise the stored values are returned without evaluating anything: {bad}",
               f"{n_early} early-return and {n_rec} recomputation paths; recompute <=> force or (seen+1) % interval_length == 0")
     # recomputation explains the storage's data
-    inl = [(ev, ctx) for ev, ctx in walk(s.events, structural=True) if isinstance(ev, ir.Inlined) and ev.qual == "BatchSage.explain_many"]
+    inl = [(ev, ctx) for ev, ctx in walk(s.events, structural=True) if isinstance(ev, ir.Inlined) and ev.cls is not None and ev.fn.name == "explain_many" and ev.cls in prog.mro(bs)]
     gd = [ev for ev, _ in walk(s.events) if is_call_to(ev, sf, "get_data")]
     base = [ev for ev, _ in walk(s.events) if isinstance(ev, ir.Call) and ev.callee == f"self.{mf}" and ev.args and
             gd and ev.args[0] == ("tget", gd[0].res, 0)]
